@@ -484,6 +484,21 @@ def seeds(ck, rule):
             ck.ok(rule, short(fn) + ":no-candidates", w, "no seed is returned only when there is no candidate peak",
                   "; ".join(T.show(c)[:80] for c, _ in conds))
         elif not main and len(rets) == 1:
+            # ranked by score and then sorted again by something else: the *last* sort is the primary order, the score only
+            # breaks its ties
+            inner0 = v[1] if v[0] == "slice" else v
+            outer_spec = sort_spec(inner0)
+            if outer_spec is not None and sort_spec(outer_spec[0]) is not None:
+                in_spec = sort_spec(outer_spec[0])
+                in_path = key_path(ctx, in_spec[1])
+                out_mentions_score = outer_spec[1] is not None and any(x[0] == "attr" and x[2] == "score" for x in T.subterms(outer_spec[1]))
+                if in_path and in_path[-1] == "score" and not out_mentions_score:
+                    ck.violation(rule, short(fn) + ":ranking", w,
+                                 "the peaks are sorted by score and then sorted again by another key: a stable sort keeps the earlier "
+                                 "order only among equal keys, so the second key decides which peaks come first and the score merely "
+                                 "breaks its ties - the seeds kept are not the highest-scoring ones",
+                                 found=T.show(v)[:240], required="sorted(peaks, key=score, reverse=True)[:count] as the last ordering step")
+                    continue
             raise AnalysisError(f"{w}: top-N selection idiom not recognised: {T.show(v)[:200]}")
         else:
             ck.violation(rule, short(fn) + ":unranked-return", w, "a return path hands back seeds that did not pass the ranking "
